@@ -69,8 +69,39 @@ var c06storage = []string{"S-torn", "S-zero", "S-flip", "S-dup", "S-drop", "S-sw
 var c06producer = []string{"P-cut", "P-empty", "P-missing", "P-misnest", "P-root", "P-place", "P-repeat", "P-nest", "P-vocab", "P-selfclose", "P-lex", "Z-names"}
 var c06reader = []string{"R-short", "R-err", "R-eof", "R-zero", "R-closeerr"}
 
+// c06VocabCombos is the size of the space the enumeration lane walks through: element name x spelling x containing element.
+var c06VocabCombos = len(c06vocab) * 4 * (len(c06childOf) + 1)
+
 func (c06) Gen(r *sim.Rand, c *sim.Case, tier string) {
 	var ops []sim.Op
+	if c.Run%3 == 2 && c.Run < ColdBase {
+		// enumeration lane: ONE element of the vocabulary, in one spelling, as a direct child of one kind of container, put into the main
+		// part of an otherwise valid package. Consecutive cases walk through all combinations (the random lane meets each only about
+		// once per quick run, whatever else was damaged in that case).
+		combo := int((c.Run/3 + c.Seed*7919) % uint64(c06VocabCombos))
+		name, spelling, cont := combo%len(c06vocab), combo/len(c06vocab)%4, combo/len(c06vocab)/4
+		if r.Chance(0.4) {
+			ops = append(ops, sim.Op{K: "foreign", I: []int{int(r.Uint64() >> 40), int(r.Uint64()) & foreign.FAllBits, 0}})
+			c.Cfg["foreign"] = 1
+		} else {
+			g := world.NewGen(r.Fork())
+			g.Extra = true
+			g.Alpha = []int{0, 1, 4}
+			g.Fam = world.FAll - 1
+			g.HFOncePerKind, g.RectTablesOnly, g.WellFormedMath = true, true, true
+			ops = g.DocOps(0, r.Range(4, 14))
+			ops = append(ops, sim.Op{K: "pg.margins", F: []float64{20, 20, 20, 20}})
+		}
+		ops = append(ops, sim.Op{K: "save"},
+			sim.Op{K: "P-vocab1", I: []int{r.Intn(1000), name, spelling, cont}, S: []sim.Str{"word/document.xml"}},
+			sim.Op{K: "open", I: []int{r.Intn(2), 0}})
+		c.Tasks = [][]sim.Op{ops}
+		c.Order = orderPolicy(r)
+		c.OrderSeed = r.Uint64()
+		c.Cfg["sweep_seed"] = int(r.Uint64() >> 34)
+		c.Cfg["vocab_enum"] = 1
+		return
+	}
 	if r.Chance(0.35) {
 		ops = append(ops, sim.Op{K: "foreign", I: []int{int(r.Uint64() >> 40), int(r.Uint64()) & foreign.FAllBits, 0}})
 		c.Cfg["foreign"] = 1
@@ -213,6 +244,14 @@ var (
 	reRootOpen = regexp.MustCompile(`<([A-Za-z0-9]+:)?(document|Types|Relationships|styles)([ >])`)
 )
 
+var c06childOf = func() []*regexp.Regexp {
+	var out []*regexp.Regexp
+	for _, n := range []string{"body", "p", "r", "tbl", "tr", "tc", "pPr", "rPr", "tcPr", "tblPr", "sectPr"} {
+		out = append(out, regexp.MustCompile(`<([A-Za-z0-9]+:)?`+n+`( [^<>]*[^/<>])?>`))
+	}
+	return out
+}()
+
 var (
 	reAnyTag    = regexp.MustCompile(`</?[A-Za-z][A-Za-z0-9:]*[^<>]*>`)
 	reEmptyPair = regexp.MustCompile(`<([A-Za-z][A-Za-z0-9:]*)((?: [^<>]*)?)></([A-Za-z][A-Za-z0-9:]*)>`)
@@ -318,9 +357,21 @@ func producerFault(kind string, data []byte, a, b, variant, n int) []byte {
 		// a producer may use: empty-element tag, start and end tag with nothing between, or with a run inside
 		// (up to four elements per fault, at different places)
 		for k := 0; k < 1+n%4; k++ {
-			m := pickMatch(reAnyTag, a+k*37)
+			// where: before any tag at all, or - half of the time - as a direct child of one of the containers whose children the
+			// reader tells apart (body, paragraph, run, table, row, cell, their property elements)
+			re := reAnyTag
+			if (b+k)%2 == 1 {
+				re = c06childOf[(a/7+k)%len(c06childOf)]
+			}
+			m := pickMatch(re, a+k*37)
+			if m == nil {
+				m = pickMatch(reAnyTag, a+k*37)
+			}
 			if m == nil {
 				break
+			}
+			if re != reAnyTag {
+				m = []int{m[1], m[1]} // right after the container's start tag
 			}
 			name := c06vocab[(b+k*11)%len(c06vocab)]
 			ins := "<" + name + "/>"
@@ -335,6 +386,34 @@ func producerFault(kind string, data []byte, a, b, variant, n int) []byte {
 			s = s[:m[0]] + ins + s[m[0]:]
 		}
 		return []byte(s)
+	case "P-vocab1": // enumeration lane: b = element, variant = spelling, n = container (0: before any tag)
+		re := reAnyTag
+		if n > 0 && n <= len(c06childOf) {
+			re = c06childOf[n-1]
+		}
+		m := pickMatch(re, a)
+		if m == nil {
+			re = reAnyTag
+			m = pickMatch(re, a)
+		}
+		if m == nil {
+			return data
+		}
+		at := m[0]
+		if re != reAnyTag {
+			at = m[1]
+		}
+		name := c06vocab[b%len(c06vocab)]
+		ins := "<" + name + "/>"
+		switch variant % 4 {
+		case 1:
+			ins = "<" + name + "></" + name + ">"
+		case 2:
+			ins = "<" + name + "><w:r><w:t>v</w:t></w:r></" + name + ">"
+		case 3:
+			ins = "<" + name + " w:val=\"1\" w:id=\"7\" r:id=\"rId1\"/>"
+		}
+		return []byte(s[:at] + ins + s[at:])
 	case "P-selfclose":
 		// the empty-element spelling: <x a="b"></x> becomes <x a="b"/> everywhere (variant 0) or at one place - what every producer
 		// but Go's encoder writes
